@@ -449,18 +449,23 @@ func connScenario(r *rand.Rand, thorough bool, single bool) {
 	conn.Close()
 	<-b.done
 
-	// render
 	b.mu.Lock()
+	sent, reqs := append([]sentFrame(nil), b.sent...), append([]muxReq(nil), b.reqs...)
+	b.mu.Unlock()
+	emitMux(sent, reqs, evs, writeTag, results)
+}
+
+// emitMux renders one Conn scenario: frames sent, hook events (C.Write tagged with the harness call), results.
+func emitMux(sent []sentFrame, reqs []muxReq, evs []kafka.VerifEvent, writeTag map[int]int, results []callRes) {
 	var stream []string
-	for _, f := range b.sent {
+	for _, f := range sent {
 		stream = append(stream, fmt.Sprintf("%d:%d", f.id, f.tag))
 	}
-	b.mu.Unlock()
 	var es []string
 	holder := ""
 	last := ""
 	isApiVersions := map[string]bool{}
-	for _, q := range b.reqs {
+	for _, q := range reqs {
 		if q.key == 18 {
 			isApiVersions[strconv.Itoa(int(q.id))] = true
 		}
@@ -477,7 +482,8 @@ func connScenario(r *rand.Rand, thorough bool, single bool) {
 			if isApiVersions[e.Args[1]] {
 				tag = 0 // the lazy ApiVersions exchange in front of the first versioned operation
 			}
-			item = fmt.Sprintf("W%d:%d", tag, ok)
+			wid, _ := strconv.ParseInt(e.Args[1], 10, 64)
+			item = fmt.Sprintf("W%d:%d:%d", tag, ok, uint32(wid))
 		case "C.Peek":
 			id, _ := strconv.ParseInt(e.Args[1], 10, 64)
 			switch e.Args[3] {
@@ -546,6 +552,7 @@ func main() {
 	if len(os.Args) > 1 {
 		n, _ = strconv.Atoi(os.Args[1])
 	}
+	stressScenarios(r, thorough)
 	for i := 0; i < n; i++ {
 		fin := make(chan struct{})
 		go func() {
